@@ -538,13 +538,22 @@ theorem stepLines_inv (lines : List Bytes) {s s' : State} {out : List Bytes} (hi
 /-- **C08**: any byte chunk, however it cuts the stream, is processed without a fault -/
 theorem stepChunk_total (s : State) (hi : Inv s) (chunk : Bytes) : ∃ res, stepChunk s chunk = .ok res := by
   unfold stepChunk
-  exact stepLines_total _ _ (inv_inbuf hi _)
+  dsimp only
+  obtain ⟨r, hr⟩ := stepLines_total (splitLines (s.inbuf ++ chunk)).1 _ (inv_inbuf hi [])
+  rw [hr]; exact ⟨_, rfl⟩
 
 theorem stepChunk_inv {s s' : State} {chunk : Bytes} {out : List Bytes} (hi : Inv s)
     (h : stepChunk s chunk = .ok (s', out)) : Inv s' ∧ SameStatic s s' := by
   unfold stepChunk at h
-  have := stepLines_inv _ (inv_inbuf hi _) h
-  exact ⟨this.1, this.2.1, this.2.2⟩
+  dsimp only at h
+  cases hr : stepLines { s with inbuf := [] } (splitLines (s.inbuf ++ chunk)).1 with
+  | error e => simp [hr, Except.map] at h
+  | ok r =>
+    obtain ⟨s1, o1⟩ := r
+    simp only [hr, Except.map, Except.ok.injEq, Prod.mk.injEq] at h
+    obtain ⟨rfl, _⟩ := h
+    have := stepLines_inv _ (inv_inbuf hi []) hr
+    exact ⟨inv_inbuf this.1 _, this.2.1, this.2.2⟩
 
 /-- the operations the harness and the driver perform on a started daemon -/
 inductive Op where
